@@ -87,8 +87,11 @@ def net_alphabet(model):
            {'a': 'raw', 'data': convs.UNKNOWN_PDU}, {'a': 'close'}]
     if model.state == 2:
         out.append({'a': 'pdu', 'spec': HUGE_RQ})
+        # protocol-version bit field with further bits set next to bit 0, reserved bytes not zero: neither is tested
+        out.append({'a': 'pdu', 'spec': dict(convs.RQ_SPEC, ver=0x8003, r1=0x5A, r2=0xA5A5)})
     if model.state == 5:
         out.append({'a': 'pdu', 'spec': HUGE_AC})
+        out.append({'a': 'pdu', 'spec': dict(convs.AC_SPEC, ver=0xFFFF, r1=0x5A, r2=0xA5A5)})
     prog = peer_progress(model) if model.state in (6, 7) else 0
     if prog == 0:
         out += [{'a': 'pdu', 'spec': ECHO1}, {'a': 'pdu', 'spec': PART1}, {'a': 'pdu', 'spec': MEMPART}]
